@@ -125,6 +125,12 @@ def gen_cases(rng, tier):
             if P2 and N2:
                 P, N = P2, N2
         sc, ec = rng.choice(CONFIGS)
+        dtype = "float64"
+        if k % 7 == 2 and P and N:
+            # scores in an unsigned / narrow integer dtype (quantised scores): differences wrap around there
+            P = [(x + 40, l) for x, l in P]
+            N = [(x + 40, l) for x, l in N]
+            dtype = rng.choice(["uint8", "uint8", "uint16", "int8"])
         is_sorted = rng.random() < 0.2
         if is_sorted:
             P.sort(key=lambda p: p[0])
@@ -146,7 +152,7 @@ def gen_cases(rng, tier):
         unknown = 99 if kind == "int" else "nope"
         c = {"pos": [enc(x) for x, _ in P], "neg": [enc(x) for x, _ in N], "pg": [l for _, l in P],
              "ng": [l for _, l in N], "names": gnames, "kind": kind, "sc": sc, "ec": ec, "is_sorted": is_sorted,
-             "thr": [enc(t) for t in thr], "unknown": unknown, "samples": _samples(rng, P, N, groups, 3)}
+             "thr": [enc(t) for t in thr], "unknown": unknown, "samples": _samples(rng, P, N, groups, 3), "dtype": dtype}
         if longnames:
             c["samples"].append({"method": "replacement", "strat": "by_group", "smoothing": False, "seed": rng.randint(0, 2**31 - 1)})
         if k % 17 == 3:
@@ -208,8 +214,9 @@ def run_impl(case):
     import numpy as np
     from score_analysis import GroupScores, Scores, groupwise
 
-    pos = np.array([fl(x) for x in case["pos"]], dtype=float)
-    neg = np.array([fl(x) for x in case["neg"]], dtype=float)
+    dt = np.dtype(case.get("dtype", "float64"))       # values exactly representable in the chosen dtype
+    pos = np.array([fl(x) for x in case["pos"]], dtype=float).astype(dt)
+    neg = np.array([fl(x) for x in case["neg"]], dtype=float).astype(dt)
     gs = GroupScores(pos, neg, pos_groups=np.array(case["pg"]) if case["pg"] else np.array([], dtype=int if case["kind"] == "int" else str),
                      neg_groups=np.array(case["ng"]) if case["ng"] else np.array([], dtype=int if case["kind"] == "int" else str),
                      score_class=case["sc"], equal_class=case["ec"], group_names=case["names"], is_sorted=case["is_sorted"])
